@@ -148,6 +148,7 @@ deriving Repr, DecidableEq, Inhabited
 
 structure BlockOp where
   isConv2D : Bool                 -- op_type == NpuOperationType.Conv2D
+  isReduceSum : Bool := false     -- op_type == Pooling and sub_op_type == NpuPoolingOp.REDUCE_SUM
   ifm : FMap
   ifm2 : Option FMap
   ifm2Scalar : Bool               -- ifm2_scalar is not None
